@@ -12,6 +12,9 @@ Decided (structural):
  R5 K6  Transaction::commit stores as fact cache either the single head's facts() or the index
         returned by evaluate_braid over exactly the committed head locations.
  R6 K6  last_common_ancestor carries its running result through the fold over all heads.
+ R7 K2  Storage::commit_heads (file-backed): the in-memory head set that get_heads serves is replaced
+        only on the success edge of the writer's commit (which is what moves the fact cache): a failed
+        commit leaves head set and fact cache at the same, previous commit.
 Not decided: equality of the fact cache with the facts at the collapsed head (value-level)."""
 from rules.core import pat, rt
 from rules.core.facts import Operand, PASS_THROUGH
@@ -91,6 +94,28 @@ def run(F, rep, tier):
     rep.check(len(cs) >= 1 and bool(facts_c) and all(cm.dominates(cs[0]["eq"], c.bb) for c in facts_c), "commit|single-head-shortcut-guard", "K2 guarded-by",
               "the head-facts shortcut is taken only when the committed set has exactly one head", site=cm.site())
     lca_fold_rule(F, rep)
+    commit_heads_rule(F, rep)
+
+
+def commit_heads_rule(F, rep):
+    """R7: get_heads() (read by action/collapse_heads and hello_head) serves LinearStorage.cached_heads, while
+    fact_cache() (read by queries and sessions) serves what the last *successful* writer commit recorded. The two
+    describe the same commit only if commit_heads replaces cached_heads on the success edge of Write::commit."""
+    fs = [f for f in F.fns if f.name == "commit_heads" and f.trait and f.trait.endswith("storage::Storage") and not f.derived]
+    if not fs:
+        rep.anchor_missing("no implementation of Storage::commit_heads found")
+    for f in fs:
+        short = f.path.split(" as ")[0].split("::")[-1].strip("<>")
+        wc = [c for c in f.calls if c.name == "commit" and c.trait and c.trait.endswith("io::Write")]
+        stores = [s for s in f.stmts() if s.place is not None and s.place.local == 1 and s.place.proj and s.place.proj[-1][0] == "f"]
+        ok = len(wc) == 1 and bool(f.field_stores("cached_heads"))
+        if ok:
+            e = pat.ok_edge(f, wc[0])
+            ok = e is not None and all(pat.dominated_by_edge(f, e, s.bb) for s in stores)
+        rep.check(ok, "%s::commit_heads|heads-replaced-only-after-durable-commit" % short, "K2 guarded-by",
+                  "%s::commit_heads stores self.cached_heads (and nothing else of self) only on the Ok edge of Write::commit" % short,
+                  "%s::commit_heads changes the head set served by get_heads() before (or without) the writer's commit having succeeded: after a failed commit "
+                  "actions and the hello head use the new heads while queries and sessions still read the previous commit's fact cache" % short, f.site())
 
 
 def lca_fold_rule(F, rep):
